@@ -3,7 +3,7 @@ use crate::value::merge_object::MergeSeq;
 use crate::value::{DynObject, ObjectRepr, Tuple, Value, ValueKind, ValueRepr};
 
 const MIN_I128_AS_POS_U128: u128 = 170141183460469231731687303715884105728;
-const MAX_REPEATED_STRING_LEN: usize = 100_000_000;
+pub(crate) const MAX_REPEATED_STRING_LEN: usize = 100_000_000;
 
 /// Iterator wrapper that provides exact size hints for iterators with known length.
 pub(crate) struct LenIterWrap<I: Send + Sync>(pub(crate) usize, pub(crate) I);
@@ -450,9 +450,12 @@ fn repeat_iterable(n: &Value, seq: &DynObject) -> Result<Value, Error> {
     }));
 
     if let Some(tuple) = seq.downcast_ref::<Tuple>() {
-        let capacity = ok!(len.checked_mul(n).ok_or_else(|| {
-            Error::new(ErrorKind::InvalidOperation, "repeated tuple is too large")
-        }));
+        let capacity = ok!(len
+            .checked_mul(n)
+            .filter(|&capacity| capacity <= MAX_REPEATED_STRING_LEN)
+            .ok_or_else(|| {
+                Error::new(ErrorKind::InvalidOperation, "repeated tuple is too large")
+            }));
         let mut values = Vec::with_capacity(capacity);
         for _ in 0..n {
             values.extend(tuple.iter().cloned());
